@@ -78,7 +78,7 @@ var harnesses = []*harness{
 		Bound: "4 causes x 4 targets; 4 handler errors; 24 codec round trips; 50 byte strings x 3 message kinds; SendMessage over room/full/unbuffered channels x live/ended/ending contexts"},
 	{Name: "H9", File: "zz_gvc_h9_manager_test.go", Pkg: "", StandIn: true, Props: []string{"C12", "C14"},
 		Funcs: regexp.MustCompile(`^\(\*RawManager\)\.(Close|Close\$1|closeNodeConns)$|^NewRawManager$|^newManagerOptions$`),
-		Bound: "pools of 0..4 non-connecting nodes; every subset of nodes owning a cancel function; 1..3 Close calls; logger on/off; 0..2 further options"},
+		Bound: "pools of 0..4 non-connecting nodes; every subset of nodes owning a cancel function; 1..3 Close calls; logger on/off; 0..2 further options; two concurrent Close calls on pools of 1..4 (the second must not return while the first is still closing)"},
 	{Name: "H2", File: "zz_gvc_h2_channel_test.go", Pkg: "",
 		Funcs: regexp.MustCompile(`^\(\*channel\)\.|^newChannel$|^\(\*RawNode\)\.(newContext|close)$`),
 		Bound: "one node; real sender and receiver over an in-memory stream; the scripted phases P1..P11, 5 rounds"},
